@@ -13,6 +13,7 @@ fn profile(thorough: bool) -> Profile {
         disable: 2,
         del_dim: 1,
         add_attr: 2,
+        rename: 2,
         update: 8,
         keygen: 9,
         refresh: 14,
